@@ -6,7 +6,7 @@ import ChythonModel.Model.C06Pid
 Line-protocol driver for C06.
 
 `case <mol wire ints> <k> (<len> <atoms…>)×k`  → one line of `|`-separated fields (see `handleCase`)
-`pid <mol wire ints>` → `paths=…|cands=…|final=…` (model of `_bfs`, `_c_set`, `_rings_filter`; see `handlePid`)
+`pid <n> <mol wire ints>` → `paths=…|cands=…|final=…` (model of `_bfs`, `_c_set`, `_rings_filter`; see `handlePid`)
 `canon <ring…>` / `radj <ring…>` / `scis <n> <m> <ring…>` → the model's `_canonic_ring` / `_ring_adjacency` / `_ring_scissors`
 -/
 open ChythonModel.Py ChythonModel.Model ChythonModel.Model.C06 ChythonModel.Spec.CycleBasis
@@ -86,29 +86,33 @@ def handleCase (xs : List Int) : String :=
 
 def showRings (rs : List (List Nat)) : String := ";".intercalate (rs.map commas)
 
-/-- `pid <mol wire ints>`: the PID stage of `_sssr` on `not_special_connectivity` with `n_sssr = rings_count`:
-`_bfs` paths, the `_c_set` candidate sequence (`!` = the generator raises there) and the `_rings_filter` result -/
+def showTrace (t : SssrTrace) : String :=
+  let paths := match t.paths with
+    | none => "raise"
+    | some ps => showRings ps
+  let cands := match t.cands with
+    | none => "raise"
+    | some cs => ";".intercalate (cs.map fun c => match c with | none => "!" | some r => commas r)
+  let fin := match t.final with
+    | .ok rs => "ok " ++ showRings rs
+    | .notReached => "notreached"
+    | .raised => "raise"
+  "|".intercalate ["paths=" ++ paths, "cands=" ++ cands, "final=" ++ fin]
+
+/-- `pid <n> <mol wire ints>`: the PID stage of `_sssr` on `not_special_connectivity`: `_bfs` paths, the `_c_set`
+candidate sequence (`!` = the generator raises there) and the `_rings_filter` result.
+`n = 0`: `Rings.sssr` itself (`n_sssr = rings_count`, no call when that is 0); `n > 0`: `_sssr(bonds, n)` -/
 def handlePid (xs : List Int) : String :=
-  match Mol.parse xs with
-  | none => "badwire"
-  | some (m, _) =>
-    let gf := fullAdj m
-    let gn := notSpecial m
-    if !(m.WF && wfAdj gf && symAdj gf) then "malformed"
-    else
-      let paths := match skinGraph gn with
-        | none => "raise"
-        | some s => match ChythonModel.Model.C06.bfsPaths s with
-          | none => "raise"
-          | some ps => showRings ps
-      let cands := match pidCandidates gn with
-        | none => "raise"
-        | some cs => ";".intercalate (cs.map fun c => match c with | none => "!" | some r => commas r)
-      let fin := match sssrModel m with
-        | .ok rs => "ok " ++ showRings rs
-        | .notReached => "notreached"
-        | .raised => "raise"
-      "|".intercalate ["paths=" ++ paths, "cands=" ++ cands, "final=" ++ fin]
+  match xs with
+  | [] => "badargs"
+  | n :: ws =>
+    match Mol.parse ws with
+    | none => "badwire"
+    | some (m, _) =>
+      let gf := fullAdj m
+      if !(m.WF && wfAdj gf && symAdj gf) then "malformed"
+      else if n == 0 then showTrace (sssrModelTrace m)
+      else showTrace (sssrTrace (notSpecial m) n.toNat)
 
 def showOptRing : Option (List Nat) → String
   | none => "raise"
